@@ -1,12 +1,84 @@
+// zcheck decides structural clauses of the zoekt properties from /repo's
+// current source. Nothing in /repo is executed.
 package main
 
 import (
+	"flag"
 	"fmt"
-	"golang.org/x/tools/go/packages"
+	"os"
+	"path/filepath"
+	"runtime/debug"
+	"strconv"
+	"time"
+
+	"zverif/checker/an"
+	"zverif/checker/props"
 )
 
 func main() {
-	cfg := &packages.Config{Mode: packages.LoadAllSyntax, Dir: "/repo"}
-	pkgs, err := packages.Load(cfg, "./...")
-	fmt.Println(len(pkgs), err)
+	prop := flag.String("property", "", "property id (C04, ...)")
+	tier := flag.String("tier", "", "quick|thorough (default $VERIF_TIER or quick)")
+	repo := flag.String("repo", "/repo", "repository working tree to analyse")
+	verif := flag.String("verif", "", "verif directory (evidence/, known_findings.json); default: parent of the binary's directory")
+	list := flag.Bool("list", false, "list implemented properties")
+	nomut := flag.Bool("no-selftest", false, "thorough: skip the mutant self-test")
+	flag.Parse()
+	if *list {
+		for _, id := range props.IDs() {
+			fmt.Println(id)
+		}
+		return
+	}
+	if *tier == "" {
+		*tier = os.Getenv("VERIF_TIER")
+	}
+	if *tier != "thorough" {
+		*tier = "quick"
+	}
+	if *verif == "" {
+		exe, _ := os.Executable()
+		*verif = filepath.Dir(filepath.Dir(exe))
+	}
+	seed, _ := strconv.Atoi(os.Getenv("VERIF_SEED"))
+	check := props.Get(*prop)
+	if check == nil {
+		fmt.Fprintf(os.Stderr, "unknown property %q\n", *prop)
+		os.Exit(2)
+	}
+	start := time.Now()
+	findings, err := an.LoadFindings(filepath.Join(*verif, "known_findings.json"))
+	if err != nil {
+		fmt.Fprintf(os.Stderr, "known_findings.json: %v\n", err)
+		os.Exit(2)
+	}
+	archs := []string{""}
+	if *tier == "thorough" {
+		archs = append(archs, "386")
+	}
+	var rs []*an.R
+	extra := map[string]any{}
+	for _, arch := range archs {
+		rs = append(rs, runOne(*repo, arch, *prop, *tier, check))
+	}
+	if *tier == "thorough" && !*nomut {
+		extra["selftest"] = selfTest(*prop, *repo, *verif, seed, rs[0])
+	}
+	os.Exit(an.Finish(*prop, *tier, seed, rs, findings, *verif, start, extra))
+}
+
+func runOne(repo, arch, prop, tier string, check props.Check) (r *an.R) {
+	p, err := an.Load(repo, arch)
+	if err != nil {
+		r = an.NewR(nil, prop)
+		r.Und("load", "packages("+arch+")", 0, err.Error())
+		return r
+	}
+	r = an.NewR(p, prop)
+	defer func() {
+		if e := recover(); e != nil {
+			r.Und("analyser-panic", fmt.Sprint(e), 0, string(debug.Stack()))
+		}
+	}()
+	check(p, r, tier)
+	return r
 }
